@@ -108,22 +108,41 @@ fn main() {
             format!("plan count={} deterministic={}\nSRC {}\nC {}\n{}", vh::plan_symbol_count(&plan), (plan == plan2) as u8,
                     syms.iter().map(|x| hex(x)).collect::<Vec<_>>().join(","), cs.join(","), fmt_ops(&vh::plan_operations(&plan)))
         }),
-        // decode K T thr esi:hex,esi:hex,... : feed packets one at a time to a SourceBlockDecoder, record every solver run
-        "decode" => catch(|| {
+        // decode-seq K T thr mode esi,esi,... : feed packets one at a time to a SourceBlockDecoder and record every solver run.
+        //   mode=tag : payload of ESI e is the 4-byte big-endian tag e+1 repeated (layout discovery; T must be a multiple of 4)
+        //   mode=real: payloads come from the real SourceBlockEncoder over the data pattern (i*89+41)^(i>>2)
+        "decode-seq" => catch(|| {
             let k: u64 = arg(&a, 1);
             let t: u16 = arg(&a, 2);
             let thr: u32 = arg(&a, 3);
+            let real = a[4] == "real";
             let cfg = ObjectTransmissionInformation::new(k * t as u64, t, 1, 1, 1);
+            let data: Vec<u8> = (0..(k as usize * t as usize)).map(|i| (((i * 89 + 41) ^ (i >> 2)) & 0xFF) as u8).collect();
+            let enc = if real { Some(SourceBlockEncoder::new(0, &cfg, &data)) } else { None };
             let mut dec = SourceBlockDecoder::new(0, &cfg, k * t as u64);
             dec.set_sparse_threshold(thr);
-            let mut out = String::new();
-            for (i, item) in a[4].split(',').enumerate() {
-                let (e, h) = item.split_once(':').unwrap();
-                let p = EncodingPacket::new(PayloadId::new(0, e.parse().unwrap()), unhex(h));
+            let mut out = format!("DATA {}\n", hex(&data));
+            // batches are separated by '|': every batch is ONE call of decode() with all its packets
+            for (i, batch) in a[5].split('|').enumerate() {
+                let mut packets = vec![];
+                for e in batch.split(',') {
+                    let esi: u32 = e.parse().unwrap();
+                    let payload: Vec<u8> = match &enc {
+                        Some(enc) => {
+                            if (esi as u64) < k {
+                                enc.source_packets()[esi as usize].data().to_vec()
+                            } else {
+                                enc.repair_packets(esi - k as u32, 1)[0].data().to_vec()
+                            }
+                        }
+                        None => (0..t as usize).map(|b| ((esi + 1) >> (8 * (3 - (b % 4)))) as u8).collect(),
+                    };
+                    packets.push(EncodingPacket::new(PayloadId::new(0, esi), payload));
+                }
                 vh::start_recording();
-                let r = dec.decode(std::iter::once(p));
+                let r = dec.decode(packets);
                 let recs = vh::take_records();
-                out.push_str(&format!("STEP {} esi={} result={}\n{}", i, e, match &r { Some(d) => hex(d), None => "none".to_string() }, fmt_records(&recs)));
+                out.push_str(&format!("STEP {} esi={} result={}\n{}", i, batch.replace(',', "+"), match &r { Some(d) => hex(d), None => "none".to_string() }, fmt_records(&recs)));
                 if r.is_some() {
                     break;
                 }
